@@ -18,6 +18,8 @@ pub struct RxGen {
     pub max_steps: usize,
     pub with_writes: bool,
     pub long_idle: bool,
+    /// the application may shut down early and the peer may retransmit its FIN (C07: "when a duplicate / a FIN arrives")
+    pub fin_retx: bool,
 }
 
 fn rx_sock_cfg() -> BoxedStrategy<SockCfg> {
@@ -74,6 +76,10 @@ pub fn strategy(g: RxGen) -> BoxedStrategy<SpCase> {
                 choices.push((1, Just(Step::W(WOp::Shutdown)).boxed()));
                 choices.push((3, (prop_oneof![4 => Just(0i16), 1 => 1i16..4], 1u16..=maxp).prop_map(|(dseq, len)| Step::Peer(PeerOp::DataAck { dseq, len })).boxed()));
                 choices.push((1, (1i16..4).prop_map(|dseq| Step::Peer(PeerOp::Fin { dseq })).boxed()));
+            }
+            if g.fin_retx {
+                choices.push((1, Just(Step::W(WOp::Shutdown)).boxed()));
+                choices.push((2, Just(Step::Peer(PeerOp::FinRetx)).boxed()));
             }
             if g.hostile {
                 // data numbered right after the peer's own FIN (only generated for the C04 classes that close early: the
